@@ -35,7 +35,7 @@ class LHPlusModel():
 
         c = NormSInv(self._p)
         c0 = NormSInv(self._p0)
-        arga = K / (1.0 - self._r) / self._h
+        arga = k / (1.0 - self._r) / self._h
         inva = 0.0
 
         if arga < 0.00001:
@@ -47,7 +47,7 @@ class LHPlusModel():
 
         RtOneMinusBeta2 = np.sqrt(1.0 - self._beta * self._beta)
         a = (1.0 / self._beta) * (c - RtOneMinusBeta2 * inva)
-        argb = (K - (1.0 - self._r0) * self._h0) / (1.0 - self._r) / self._h
+        argb = (k - (1.0 - self._r0) * self._h0) / (1.0 - self._r) / self._h
         invb = 0.0
 
         if argb <= 0:
@@ -85,7 +85,7 @@ class LHPlusModel():
             exp_min_lk += pdf * k0
 
         check_sum += cdf1
-        exp_min_lk += cdf1 * K
+        exp_min_lk += cdf1 * k
 
         return exp_min_lk
 
@@ -115,7 +115,7 @@ class LHPlusModel():
         r23 = self._beta * self._beta_0
         el1 = self._p * self._h * (1.0 - self._r)
         el2 = self._p0 * self._h0 * (1.0 - self._r0)
-        el3 = -K * (M(c0, a, self._beta_0) - N(a))
+        el3 = -k * (M(c0, a, self._beta_0) - N(a))
         el4 = - ((1.0 - self._r0) * self._h0 - k) * M(c0, b, self._beta_0)
         term1 = M(c, a, self._beta) + phi3(b, c, c0, r12, r13, r23) \
             - phi3(a, c, c0, r12, r13, r23)
